@@ -1038,6 +1038,7 @@ func concurrentPrepare(rounds int, add func(violation)) {
 			if j, dup := seen[sid]; dup {
 				add(violation{"C11", "two-statements-with-one-cache-id", hx("MustPrepare from 16 goroutines at once"), fmt.Sprintf("round %d: statements %d and %d have cache id %d", round, j, i, sid)})
 				add(violation{"C09", "two-statements-with-one-cache-id", hx("MustPrepare from 16 goroutines at once"), fmt.Sprintf("round %d: statements %d and %d have cache id %d", round, j, i, sid)})
+				add(violation{"C10", "two-statements-with-one-cache-id", hx("MustPrepare from 16 goroutines at once"), fmt.Sprintf("round %d: statements %d and %d have cache id %d", round, j, i, sid)})
 				return
 			}
 			seen[sid] = i
